@@ -9,6 +9,9 @@ mod reactive;
 mod route;
 mod ssr;
 mod util;
+#[path = "../../common/vd.rs"]
+mod vd;
+mod hydrategen;
 
 use util::Args;
 
@@ -61,6 +64,7 @@ fn main() {
         "reactive" => reactive::run(&args),
         "ssr" => ssr::run(&args),
         "async" => asyncx::run(&args),
+        "hydrategen" => hydrategen::run(&args),
         e => {
             eprintln!("unknown engine {e}");
             std::process::exit(2)
